@@ -4,6 +4,20 @@ import json, os, sys
 HERE = os.path.dirname(os.path.dirname(os.path.abspath(__file__)))
 
 CHECKS = {
+ "C14": dict(level="other", design="4.12",
+   technique="call-site/effect lint over the hash call graph, interval check of byte reads, cursor-discipline rule, and agreement of the normalised operation sequence with the reference MurmurHash2/64A",
+   text="Decides structural necessary conditions: entry points forward (buffer,length,seed) unchanged to the right kernel; std::hash<xbasic_fixed_string> "
+        "hashes exactly (data(), size(), constant); no pointer-to-integer conversion, non-local state, foreign callee or wider-pointer block load in the "
+        "call graph; every byte read entering arithmetic is zero-extended; every block/tail read is covered by the remaining length; and the canonicalised "
+        "statement sequence of the three kernels equals the reference algorithm (constants, shifts, order). Value equality for every input is not decided as such.",
+   note="Reference sequences are transcribed in sa/rules/c14.py; a restructured kernel is reported as analysis-broken (exit 2), never as a violation; x86-64 only."),
+ "C20": dict(level="other", design="4.18",
+   technique="API-misuse rule for readlink (failure test, counted use, length < capacity by linear entailment), chained-cut shape of prefix_path, endianness probe table under two include orders",
+   text="Decides structural conditions on the Linux configuration: readlink's result is tested for failure, the path is built from the returned "
+        "length (the buffer is never used as a C string unless a terminator byte is reserved), and the building branch implies length < capacity "
+        "(so truncation is retried); prefix_path is exactly two chained find_last_of(separator) cuts from position 0 with the separator appended once; "
+        "endianness() decides only through the switch on byte 0 of a probe with distinct bytes (MSB->big, LSB->little, else mixed).",
+   note="What the OS returns for a given install location is outside static reach; only the Linux branch of xsystem.hpp is visible in this sandbox."),
  "C13": dict(level="other", design="4.11",
    technique="type/mask-based interval analysis of table subscripts + alphabet/sentinel agreement + guard-shape and accumulator-constant consistency rules over the resolved AST",
    text="Decides structural necessary conditions only: every subscript of the 256-entry decode table and of the 65-byte alphabet literal has an "
